@@ -1,12 +1,16 @@
-(* C02 -- hand-written model of `np.linalg.matrix_power` as SMPose.__pow__ uses it, and the integer power laws.
+(* C02 -- hand-written model of SMPose.__pow__ (as of /repo fbf47d0) and the integer power laws.
 
-   numpy:  matrix_power(a, n):  n = 0 -> identity;  n < 0 -> a := inv(a), n := |n|;  then the |n|-fold product
-           (n = 1,2,3 directly, larger n by binary decomposition -- the same value in exact arithmetic by associativity).
-   Model:  mpow mul e inv A n = if n < 0 then pow_nat (inv A) |n| else pow_nat A |n|,  pow_nat A (S k) = pow_nat A k * A.
-   `inv` is the exact inverse (adjugate / determinant) of the shapes the four pose classes hold:
-   2x2, 3x3, and the affine shapes [[R t],[0 1]] whose last row is the constant (0..0 1).
-   NumPy itself is external code that is modelled, not verified (DESIGN.md section 6); the model is tied to the
-   implementation on every run (T-num, |n| <= 8) and to the symbolic traces of `X ** n` for |n| <= 4 (Props/C02_p.v). *)
+   code:   X ** n:  n < 0 -> X.inv() ** (-n)   (the CLOSED-FORM inverse of the class: transpose for SO(n),
+                              [R', -R' t] for SE(n));   else np.linalg.matrix_power(X.A, n)
+   numpy:  matrix_power(a, n), n >= 0: identity for 0, then the n-fold product (n = 1,2,3 directly, larger n by binary
+           decomposition -- the same value in exact arithmetic by associativity).
+   Model:  mpow mul e inv A n = if n < 0 then pow_nat (inv A) |n| else pow_nat A |n|,  pow_nat A (S k) = pow_nat A k * A,
+           with inv := mtr22 / mtr33 / sinv_aff3 / sinv_aff4 (the structured inverses of the four pose classes).
+   The exact inverses adjugate/determinant (minv22 ...) are kept: Props/C02_a.v, C02_b.v prove that the structured
+   inverses coincide with them on the group ("the structured inverse is the true matrix inverse").
+   NumPy's matrix_power for n >= 0 is external code that is modelled, not verified (DESIGN.md section 6); the model is
+   tied to the implementation on every run (T-num, |n| <= 8) and to the symbolic traces of `X ** n`, |n| <= 4
+   (Props/C02_p.v). *)
 From Coq Require Import ZArith Lia.
 From SM Require Import Base.Ops Base.Lin Model.Quat.
 
@@ -49,6 +53,14 @@ Qed.
 Lemma inverse_unique A B C : mul A B = e -> mul C A = e -> B = C.
 Proof. intros H1 H2. rewrite <- (id_l B), <- H2, assoc, H1, id_r. reflexivity. Qed.
 
+(* a map that reverses products and fixes e commutes with powers (used for the transpose) *)
+Lemma pow_nat_antihom (f : M -> M) A n : f e = e -> (forall a b, f (mul a b) = mul (f b) (f a)) ->
+  pow_nat (f A) n = f (pow_nat A n).
+Proof.
+  intros He Hf. induction n as [|n IH]; cbn [pow_nat]; [symmetry; exact He|].
+  rewrite Hf, <- IH. exact (pow_nat_succ_l (f A) n).
+Qed.
+
 Variable inv : M -> M.
 
 Lemma mpow_0 A : mpow inv A 0 = e.
@@ -73,6 +85,18 @@ Proof.
   intros Hn. unfold mpow. replace (- n <? 0)%Z with true by (symmetry; apply Z.ltb_lt; lia).
   replace (Z.abs_nat (- n)) with (Z.abs_nat n) by lia. reflexivity.
 Qed.
+
+(* the exponent law for non-negative exponents needs no inverse at all: ANY monoid element *)
+Lemma mpow_add_nonneg A m n : (0 <= m)%Z -> (0 <= n)%Z ->
+  mpow inv A (m + n) = mul (mpow inv A m) (mpow inv A n).
+Proof.
+  intros Hm Hn. rewrite !mpow_nonneg by lia.
+  replace (Z.abs_nat (m + n)) with (Z.abs_nat m + Z.abs_nat n)%nat by lia. apply pow_nat_add.
+Qed.
+
+(* a negative power is the positive power of the inverse: X ** -n = X.inv() ** n, by definition of the code *)
+Lemma mpow_neg_is_pow_inv A n : (0 < n)%Z -> mpow inv A (- n) = mpow inv (inv A) n.
+Proof. intros Hn. rewrite mpow_neg by lia. rewrite mpow_nonneg by lia. reflexivity. Qed.
 
 Lemma mpow_m1 A : mpow inv A (-1) = inv A.
 Proof. unfold mpow. cbn. apply id_l. Qed.
@@ -159,20 +183,26 @@ Definition minv_aff4 (A : M44 T) : M44 T :=
   let Ri := minv33 (t2r3 A) in rt2tr3 O Ri (vneg3 O (mv33 O Ri (transl3 A))).
 
 (* 3x3 product for the SE(2) class (Base/Lin.v has mmul33) ; the four power functions *)
-Definition SO2_pow (A : M22 T) (n : Z) : M22 T := mpow (mmul22 O) (I22 O) minv22 A n.
-Definition SO3_pow (A : M33 T) (n : Z) : M33 T := mpow (mmul33 O) (I33 O) minv33 A n.
-Definition SE2_pow (A : M33 T) (n : Z) : M33 T := mpow (mmul33 O) (I33 O) minv_aff3 (aff3 A) n.
-Definition SE3_pow (A : M44 T) (n : Z) : M44 T := mpow (mmul44 O) (I44 O) minv_aff4 (aff4 A) n.
+(* the closed-form inverses of SE2.inv / SE3.inv (= base.trinv2 / trinv):  [[R', -R' t],[0 1]] *)
+Definition sinv_aff3 (A : M33 T) : M33 T :=
+  rt2tr2 O (mtr22 (t2r2 A)) (vneg2 O (mv22 O (mtr22 (t2r2 A)) (transl2 A))).
+Definition sinv_aff4 (A : M44 T) : M44 T :=
+  rt2tr3 O (mtr33 (t2r3 A)) (vneg3 O (mv33 O (mtr33 (t2r3 A)) (transl3 A))).
+
+Definition SO2_pow (A : M22 T) (n : Z) : M22 T := mpow (mmul22 O) (I22 O) mtr22 A n.
+Definition SO3_pow (A : M33 T) (n : Z) : M33 T := mpow (mmul33 O) (I33 O) mtr33 A n.
+Definition SE2_pow (A : M33 T) (n : Z) : M33 T := mpow (mmul33 O) (I33 O) sinv_aff3 (aff3 A) n.
+Definition SE3_pow (A : M44 T) (n : Z) : M44 T := mpow (mmul44 O) (I44 O) sinv_aff4 (aff4 A) n.
 
 (* fixed exponents for the numeric correspondence runs (T-num), |n| <= 8.  They are written with literal `nat`
    exponents so that the extracted OCaml needs nothing from Coq's arithmetic libraries; Props/C02_p.v proves
    pw_<cls>_<n> A = <cls>_pow A n by computation. *)
-Definition SO2_pown (A : M22 T) (neg : bool) (k : nat) := pow_nat (mmul22 O) (I22 O) (if neg then minv22 A else A) k.
-Definition SO3_pown (A : M33 T) (neg : bool) (k : nat) := pow_nat (mmul33 O) (I33 O) (if neg then minv33 A else A) k.
+Definition SO2_pown (A : M22 T) (neg : bool) (k : nat) := pow_nat (mmul22 O) (I22 O) (if neg then mtr22 A else A) k.
+Definition SO3_pown (A : M33 T) (neg : bool) (k : nat) := pow_nat (mmul33 O) (I33 O) (if neg then mtr33 A else A) k.
 Definition SE2_pown (A : M33 T) (neg : bool) (k : nat) :=
-  pow_nat (mmul33 O) (I33 O) (if neg then minv_aff3 (aff3 A) else aff3 A) k.
+  pow_nat (mmul33 O) (I33 O) (if neg then sinv_aff3 (aff3 A) else aff3 A) k.
 Definition SE3_pown (A : M44 T) (neg : bool) (k : nat) :=
-  pow_nat (mmul44 O) (I44 O) (if neg then minv_aff4 (aff4 A) else aff4 A) k.
+  pow_nat (mmul44 O) (I44 O) (if neg then sinv_aff4 (aff4 A) else aff4 A) k.
 Definition pw_SO2_m8 A := SO2_pown A true 8.
 Definition pw_SO2_m7 A := SO2_pown A true 7.
 Definition pw_SO2_m6 A := SO2_pown A true 6.
@@ -268,4 +298,4 @@ Definition pw_UQ_p8 q := UQ_pown q false 8.
 End Inv.
 
 Create HintDb c02 discriminated.
-#[export] Hint Unfold minv22 adj33 minv33 aff3 aff4 minv_aff3 minv_aff4 qunit : c02.
+#[export] Hint Unfold minv22 adj33 minv33 aff3 aff4 minv_aff3 minv_aff4 sinv_aff3 sinv_aff4 qunit : c02.
